@@ -47,6 +47,7 @@ type Node struct {
 	Lang, Loc  string
 	Env        *Env     // envelope headers (top level and embedded messages)
 	Extra      []string // further header lines "Name: value" (no line end)
+	RawLines   []string // header fields written verbatim (may contain folds), without the final line end
 	Prelude    string   // a line without colon in front of the first header field (top level only)
 	// content
 	Body     []byte
@@ -231,6 +232,13 @@ func (n *Node) render(buf *bytes.Buffer, l *Layout, top bool) {
 		start := buf.Len()
 		l.headerLine(buf, h.name, h.value)
 		n.HNames = append(n.HNames, h.name)
+		n.HLines = append(n.HLines, append([]byte{}, buf.Bytes()[start:]...))
+	}
+	for _, raw := range n.RawLines {
+		start := buf.Len()
+		buf.WriteString(raw)
+		buf.WriteString(l.eol())
+		n.HNames = append(n.HNames, raw[:strings.Index(raw, ":")])
 		n.HLines = append(n.HLines, append([]byte{}, buf.Bytes()[start:]...))
 	}
 	blankStart := buf.Len()
@@ -449,6 +457,10 @@ func (g *Gen) contentExtras(n *Node) {
 	}
 	if g.Rng.Chance(0.1) {
 		n.Extra = append(n.Extra, "X-Empty:")
+	}
+	if g.Rng.Chance(0.06) {
+		// a fold that consists of white space only, and a value that starts on the next line
+		n.RawLines = append(n.RawLines, "X-Ws: a\r\n \r\n\tb", "X-Late:\r\n late value")
 	}
 }
 
